@@ -38,8 +38,13 @@ def limit_resources(timeout, pid=None):
         setlimit(resource.RLIMIT_AS,
                  (options.args().memout * 1024 * 1024, resource.RLIM_INFINITY))
     if timeout:
-        timeout = math.ceil(timeout)
-        setlimit(resource.RLIMIT_CPU, (timeout, timeout))
+        # the CPU-time limit is a safety net behind the wall-clock limit: it
+        # must not fire at the same moment (the exit status of a spinning
+        # command would depend on which one wins), and a command stopped by it
+        # (SIGXCPU at the soft limit) must not look like one that died from
+        # SIGKILL
+        timeout = math.ceil(timeout) + 1
+        setlimit(resource.RLIMIT_CPU, (timeout, timeout + 1))
 
 
 def execute(cmd, filename, timeout):
@@ -51,7 +56,14 @@ def execute(cmd, filename, timeout):
         proc = subprocess.Popen(cmd + [filename],
                                 stdout=subprocess.PIPE,
                                 stderr=subprocess.PIPE)
-        limit_resources(timeout, proc.pid)
+        try:
+            limit_resources(timeout, proc.pid)
+        except OSError:
+            # e.g. a hard limit of our own that is lower: do not leave the
+            # command running without limits
+            proc.kill()
+            proc.wait()
+            raise
     else:
         proc = subprocess.Popen(cmd + [filename],
                                 stdout=subprocess.PIPE,
